@@ -222,7 +222,7 @@ func checkTables(c *common.Ctx, res *common.Result) {
 		} else {
 			res.Add("table_compared_"+g.Cat, 1)
 			res.Distinct("nontrivial", "table "+g.Table+" "+g.name())
-			if n := g.name(); n == "strings.ToLower" || n == "time.Duration" || n == "os.Args" || n == "math.Pi" {
+			if n := g.name(); n == "strings.ToLower" || n == "time.Duration" || n == "os.Args" {
 				res.Sample(map[string]interface{}{"space": "table", "entry": g.name(), "category": g.Cat, "result": "identical to the Go object of that name, in the table and through import()"})
 			}
 		}
